@@ -694,6 +694,12 @@ func h2Scenario1(seed int64, idx int, dir string, acts []h2Act, ca *harnessCA, c
 			A.wmu.Lock()
 			err = A.conn.Close()
 			A.wmu.Unlock()
+		case "brst":
+			// the receiver resets a stream; what the sender still sends on it counts against its windows all the same
+			sc.log("b_rst_sent", "s", int(a.S))
+			B.wmu.Lock()
+			err = B.fr.WriteRSTStream(a.S, http2.ErrCodeCancel)
+			B.wmu.Unlock()
 		case "bpause":
 			// the receiver stops reading: what the relay writes piles up in the socket and in the relay's output channel
 			bPaused.Store(true)
